@@ -25,7 +25,7 @@ from ..objectmodel.builder import (
 from ..util import hasha
 
 
-__compiled_grammar_cache: dict[tuple[str | None, str, int], g.Grammar] = {}
+__compiled_grammar_cache: dict[tuple[str | None, str, int, bool], g.Grammar] = {}
 
 
 def boot_grammar() -> g.Grammar:
@@ -62,13 +62,6 @@ def compile(
         )
     cache = __compiled_grammar_cache
 
-    key = (name, hasha(grammar), id(semantics))
-    if key in cache:
-        model = cache[key]
-    else:
-        gen = TatSuParserGenerator(name, **settings)
-        model = cache[key] = gen.parse(grammar, **settings)
-
     asmodel = not semantics and (
         asmodel
         or isinstance(builderconfig, BuilderConfig)
@@ -76,6 +69,15 @@ def compile(
         or typedefs is not None
         or constructors is not None
     )
+
+    # a model that builds objects and a plain one are different results:
+    # they must not share (and overwrite) one cached grammar object
+    key = (name, hasha(grammar), id(semantics), asmodel)
+    if key in cache:
+        model = cache[key]
+    else:
+        gen = TatSuParserGenerator(name, **settings)
+        model = cache[key] = gen.parse(grammar, **settings)
     if semantics is not None:
         model.semantics = semantics
     elif asmodel:
